@@ -540,11 +540,13 @@ func c03R4(c *Ctx) {
 	}
 	// Manager.Release callers
 	mrel := p.Method(eniPkg, "Manager", "Release")
-	c.WhoMay("C03.R4", "call eniMgr.Release", groupCalls(p.CallsTo(nil, mrel)), map[string]string{
+	relAllowed := map[string]string{
 		daemonPkg + ".networkService.ReleaseIP": "CNI DEL behind the container-ID guard (C04.R3)",
 		daemonPkg + ".networkService.AllocIP":   "roll-back of a failed ADD (C04.R4)",
 		daemonPkg + ".networkService.gcPods":    "GC behind both absence checks (C09.R2)",
-	})
+	}
+	c.WhoMay("C03.R4", "call eniMgr.Release", groupCalls(p.CallsTo(nil, mrel)), relAllowed)
+	c.WhoMayCallDeep("C03.R4", "call eniMgr.Release", []*types.Func{mrel}, relAllowed)
 	c04R3(c)
 	c09R2(c)
 
